@@ -47,7 +47,12 @@ func H_defspec_names() {
 		app.Spec = spec
 		var a *bool
 		if withOpt {
-			a = app.Bool(BoolOpt{Name: "a aa", HideValue: hideValue})
+			if vParamInt("withopt") == 3 {
+				// an option without any name (settable through its environment variable only) is an option
+				a = app.Bool(BoolOpt{Name: " ", EnvVar: "VN"})
+			} else {
+				a = app.Bool(BoolOpt{Name: "a aa", HideValue: hideValue})
+			}
 		}
 		x := app.Strings(StringsArg{Name: pair[0]})
 		y := app.Strings(StringsArg{Name: pair[1]})
